@@ -153,6 +153,7 @@ def make_A(rng, S, keys, style):
             if style == "ones": v = Fraction(1)
             elif style == "lapl": v = Fraction(len(S[i]) - 1 or 1) if c == i else Fraction(-1)
             elif style == "zeros": v = Fraction(rng.choice([0, 0, 1, -2]))
+            elif style == "ties": v = (Fraction(100) - keys[c]) * rng.choice([1, -1])    # |a_ij| + r_j = 100 for every j
             else: v = Fraction(rng.choice([-4, -3, -2, -1, 1, 2, 3, 5]), rng.choice([1, 1, 2, 4]))
             row.append((c, v))
         A.append(row)
@@ -176,7 +177,7 @@ def gen_bases(ctx, n_bases):
         else:
             kind, S = named_graph(rng)
         keys = distinct_keys(rng, len(S))
-        A = make_A(rng, S, keys, rng.choice(["ones", "ones", "lapl", "rand", "rand", "super"]))
+        A = make_A(rng, S, keys, rng.choice(["ones", "ones", "lapl", "rand", "rand", "super", "ties"]))
         out.append(Base("b%d" % k, S, A, keys, kind))
     return out
 
@@ -196,7 +197,7 @@ def gen_konly(ctx, m):
         b = Base("k%d" % k, S, make_A(rng, S, keys, rng.choice(["ones", "rand", "super"])), keys, kind)
         if kind == "given":
             b.S = S = rand_graph(rng, n, 0.4) if rng.random() < 0.6 else S
-            b.A = make_A(rng, S, keys, rng.choice(["ones", "rand", "zeros"]))
+            b.A = make_A(rng, S, keys, rng.choice(["ones", "rand", "zeros", "ties"]))
             b.states = [rng.choice([0, 0, 0, 1, 1, -1, 2, 3]) for _ in range(n)]
             if rng.random() < 0.3: b.keys = [Fraction(0)] * n
         out.append(b)
